@@ -331,6 +331,77 @@ theorem C20_reinit {h : Heap} (wf : HeapWF h) (st : NState) (ok : StateOK h st) 
     simp only [viewNet, a1]
     exact (wf.shapes p.2 net a1).symm
 
+/-! ### C20.4' — the `zero_weights` option of the RBM constructors is not remembered -/
+
+/-- the weights a module gets from `initialize_parameters(zero_weights=b)` / the RBM constructors:
+all-zero with `zero_weights=True`, otherwise the generator's draws -/
+def initWeights (zeroWeights : Bool) (rand : List Tok) : List Tok := if zeroWeights then [] else rand
+
+/-- **C20_module_ctor.** `BinaryRBM(n, nh, zero_weights=zw)` / `PurificationRBM(n, nh, na, zero_weights=zw)`:
+a NEW module object with NEW tensors of the requested or defaulted shapes, zero biases, and weights that are
+the generator's draws — or all zero iff `zero_weights=True` was asked for. -/
+theorem C20_module_ctor (w : World) (mslot : Nat) (k : NetKind) (n : Nat) (nh na : Option Nat) (zw : Bool)
+    (rand : List Tok) :
+    let r := step w (.mkModule mslot k n nh na zw rand)
+    r.2 = none ∧ ∃ id ps, r.1.modules mslot = some id ∧ w.heap.next ≤ id ∧
+      r.1.heap.nets id = some ⟨k, n, hiddenDefault k n nh, defaultA k n na, ps⟩ ∧
+      viewNet r.1.heap id = freshParams k n (hiddenDefault k n nh) (defaultA k n na) (initWeights zw rand) ∧
+      (∀ x ∈ ids ps, w.heap.next ≤ x) := by
+  intro r
+  obtain ⟨ps, a1, a2, a3, a4⟩ := allocNet_new w.heap k n (defaultH k n nh) (defaultA k n na)
+    (paramSpecs k n (defaultH k n nh) (defaultA k n na) (weightToks zw rand))
+  rw [← newNet_eq] at a1 a2 a4
+  have hw : initWeights zw rand = weightToks zw rand := rfl
+  refine ⟨rfl, (newNet w.heap k n nh na (weightToks zw rand)).2, ps, ?_, a4, ?_, ?_, a3⟩
+  · simp [r, step, upd]
+  · rw [← hiddenDefault_eq]; exact a1
+  · rw [← hiddenDefault_eq, ← freshParams_eq, hw]; exact a2
+
+/-- **C20_init_module.** `module.initialize_parameters()` / `module.initialize_parameters(zero_weights=b)` on a
+module the caller holds — whatever created it (in particular a constructor call with `zero_weights=True`) and
+whatever happened to it since: the module keeps its identity and sizes and gets NEW parameter tensors with zero
+biases and weights drawn from the generator, all-zero ONLY if this very call asked for `zero_weights=True`
+(`zw = none` is the call without the argument); every other network object is left alone. -/
+theorem C20_init_module (w : World) (wf : HeapWF w.heap) (mslot id : Nat) (net : Net)
+    (hm : w.modules mslot = some id) (hn : w.heap.nets id = some net) (zw : Option Bool) (rand : List Tok) :
+    let r := step w (.initModule mslot zw rand)
+    r.2 = none ∧ r.1.modules = w.modules ∧ r.1.states = w.states ∧
+    (∃ ps, r.1.heap.nets id = some { net with params := ps } ∧
+      viewNet r.1.heap id = freshParams net.kind net.nv net.nh net.na (initWeights (zw.getD false) rand) ∧
+      (∀ x ∈ ids ps, w.heap.next ≤ x) ∧ (∀ x ∈ ids ps, x ∉ ids net.params)) ∧
+    (∀ i, i ≠ id → r.1.heap.nets i = w.heap.nets i ∧ viewNet r.1.heap i = viewNet w.heap i) := by
+  intro r
+  have hr : r = ({ w with heap := initParams w.heap id (weightToks (zw.getD false) rand) }, none) := by
+    simp [r, step, hm]
+  obtain ⟨ps, n1, n2, n3, _⟩ := initParams_new w.heap id (weightToks (zw.getD false) rand) net hn
+  rw [hr]
+  refine ⟨rfl, rfl, rfl, ⟨ps, n1, ?_, n3, ?_⟩, fun i hi => initParams_old wf id _ i hi⟩
+  · rw [← freshParams_eq]; exact n2
+  · intro x hx hx2
+    have h1 := n3 x hx
+    have h2 := wf.lt_of_isSome x (wf.alloc id net hn x hx2)
+    omega
+
+/-- a module created with `zero_weights=True`, handed to a complex state and reinitialised: BOTH networks of the
+state end up with generator weights (tokens 8 and 9), not with zeros — the constructor's option is not sticky -/
+example :
+    let w := run World.empty [.mkModule 0 .binary 2 (some 3) none true [7], .constructFrom 0 .cplx 0 none,
+      .reinit 0 [[8], [9]]]
+    ((w.states 0).map (fun st => st.nets.map (fun p => viewNet w.heap p.2)))
+      = some [freshParams .binary 2 3 0 [8], freshParams .binary 2 3 0 [9]] := by decide
+
+/-- … while the constructor itself honoured it: directly after `BinaryRBM(2, 3, zero_weights=True)` the weights
+are the zero token, and an explicit `initialize_parameters(zero_weights=True)` zeroes them again -/
+example :
+    let w := run World.empty [.mkModule 0 .binary 2 (some 3) none true [7]]
+    (w.modules 0).map (viewNet w.heap) = some (freshParams .binary 2 3 0 []) := by decide
+example :
+    let w := run World.empty [.mkModule 0 .purif 2 none (some 0) false [7, 8], .initModule 0 (some true) [5, 6]]
+    (w.modules 0).map (viewNet w.heap) = some (freshParams .purif 2 2 0 []) := by decide
+example :
+    let w := run World.empty [.mkModule 0 .purif 2 none (some 0) true [7, 8], .initModule 0 none [5, 6]]
+    (w.modules 0).map (viewNet w.heap) = some (freshParams .purif 2 2 0 [5, 6]) := by decide
+
 /-! ### C20.5 — the `fit` guards -/
 
 /-- **C20_fit_guard.** Training a complex or mixed state without measurement bases is a `ValueError` and the
@@ -398,7 +469,7 @@ example : ∃ h' st, constructFrom
 
 /-- `C20_fit_guard` / `C20_no_alias` talk about non-empty worlds: after this history slot 0 holds a mixed
 state with two networks -/
-example : ((run World.empty [.mkModule 0 .purif 2 (some 1) (some 3) [5, 6], .constructFrom 0 .dens 0 none,
+example : ((run World.empty [.mkModule 0 .purif 2 (some 1) (some 3) false [5, 6], .constructFrom 0 .dens 0 none,
     .reinit 0 [[1], [2]]]).states 0).isSome = true := by decide
 
 /-- a non-trivial gradient history for `C20_phase_aux_bias_zero` over ℝ: one all-`Z` batch and one rotated batch -/
